@@ -113,6 +113,13 @@ def run_mutants(names, listfile="mutants.json"):
         sys.stdout.flush()
     revert()
     json.dump(results, open(LAB + "/results-" + listfile, "w"), indent=1)
+    if not names:
+        # a full run: keep a normalised copy next to the list (read by tools/appendix.py)
+        norm = [{"name": r["name"], "breaks": r.get("breaks"), "survives_repo_tests": r.get("survives_repo_tests"),
+                 "repo_tests": r.get("tests"), "caught_by": r.get("caught_by"),
+                 "checks": {p: {"exit": x["exit"], "message": x["message"][:200]} for p, x in r.get("checks", {}).items()}}
+                for r in results if "checks" in r]
+        json.dump(norm, open(SRC + "/tools/" + listfile.replace(".json", "-results.json"), "w"), indent=1)
     return results
 
 
